@@ -128,14 +128,33 @@ is processable exactly when the tag — weakness dropped — is the response's t
 validators are not consulted. -/
 theorem if_range_etag (r : CondReq) (et e ie v : Str) (w w' : Bool)
     (hr : r.range.isSome = true) (hv : r.ifRange = some v) (hvne : v ≠ [])
-    (hd : r.ifRangeDate = none) (hiv : unquoteEtag v = some (ie, w'))
+    (hd : looksLikeEtag v = true ∨ r.ifRangeDate = none) (hiv : unquoteEtag v = some (ie, w'))
     (hu : unquoteEtag et = some (e, w)) (lm : Option (Int × Nat)) :
     isResourceModified r (some et) lm false = !(parseEtags (some ie)).contains e := by
   have hve : v.isEmpty = false := by
     cases v with
     | nil => exact absurd rfl hvne
     | cons _ _ => rfl
-  simp [isResourceModified, hr, parseIfRange, hv, hve, hd, hiv, hu]
+  have hdate : (if looksLikeEtag v = true then none else r.ifRangeDate) = none := by
+    rcases hd with hd | hd <;> simp [hd]
+  simp [isResourceModified, hr, parseIfRangeHeader, parseIfRange, hv, hve, hdate, hiv, hu]
+
+/-- A quoted (or `W/`-prefixed quoted) `If-Range` value is an entity tag even when it spells a date
+that `parse_date` would accept (31f8ea0; model/code difference reported by builder-translator):
+the date parser's answer is not consulted. -/
+theorem if_range_quoted_is_etag (value : Str) (d1 d2 : Option Int) (h : looksLikeEtag value = true) :
+    parseIfRangeHeader (some value) d1 = parseIfRangeHeader (some value) d2 := by
+  simp [parseIfRangeHeader, h]
+
+/-- the reported input: `If-Range: "Wed, 21 Oct 2015 07:28:00 GMT"` (with the quotes) against
+`ETag: "abc"` does not validate although the quoted text is the resource's date -/
+def quotedDateRequest : CondReq :=
+  { range := some "bytes=0-1".toList, ifRange := some "\"Wed, 21 Oct 2015 07:28:00 GMT\"".toList, ifRangeDate := some 1445412480 }
+
+theorem if_range_quoted_date_regression :
+    looksLikeEtag "\"Wed, 21 Oct 2015 07:28:00 GMT\"".toList = true ∧
+    isResourceModified quotedDateRequest (some "\"abc\"".toList) (some (1445412480, 0)) false = true := by
+  decide
 
 example : unquoteEtag "W/\"abc\"".toList = some ("abc".toList, true) ∧
     (parseEtags (some "abc".toList)).contains "abc".toList = true := by decide
@@ -144,18 +163,19 @@ example : unquoteEtag "W/\"abc\"".toList = some ("abc".toList, true) ∧
 resolution) when the response has no ETag. -/
 theorem if_range_date (r : CondReq) (v : Str) (d s : Int) (m : Nat)
     (hr : r.range.isSome = true) (hv : r.ifRange = some v) (hvne : v ≠ [])
-    (hd : r.ifRangeDate = some d) :
+    (hnq : looksLikeEtag v = false) (hd : r.ifRangeDate = some d) :
     isResourceModified r none (some (s, m)) false = false ↔ s ≤ d := by
   have hve : v.isEmpty = false := by
     cases v with
     | nil => exact absurd rfl hvne
     | cons _ _ => rfl
-  simp [isResourceModified, hr, parseIfRange, hv, hve, hd, dateUnmodified]
+  simp [isResourceModified, hr, parseIfRangeHeader, parseIfRange, hv, hve, hnq, hd, dateUnmodified]
 
 def exampleIfRangeDate : CondReq :=
   { range := some "bytes=0-1".toList, ifRange := some "x".toList, ifRangeDate := some 100 }
 
-example : isResourceModified exampleIfRangeDate none (some (100, 999999)) false = false ∧
+example : looksLikeEtag "x".toList = false ∧
+    isResourceModified exampleIfRangeDate none (some (100, 999999)) false = false ∧
     isResourceModified exampleIfRangeDate none (some (101, 0)) false = true := by decide
 
 /-- An `If-Range` header without a `Range` header is ignored. -/
@@ -888,8 +908,8 @@ theorem if_range_date_text (rng : Str) (s d : Nat) (hs : InDateRange s) (hd : In
   simp only [mkReqText, mkRespText, dateOfText_httpDate d hd, Option.isNone_some, Bool.false_or,
     Option.isSome_some, Bool.and_true]
   unfold isResourceModified
-  simp only [Bool.not_false, Option.isSome_some, Bool.and_self, ↓reduceIte, parseIfRange, hne,
-    Bool.false_eq_true]
+  simp only [Bool.not_false, Option.isSome_some, Bool.and_self, ↓reduceIte, parseIfRangeHeader,
+    Option.map_some, Option.getD_some, httpDate_not_etag_like d hd, parseIfRange, hne, Bool.false_eq_true]
   cases etag with
   | none => simp [dateUnmodified]
   | some et =>
